@@ -32,6 +32,51 @@ func (v *hasSideEffectVisitor) Visit(node ast.Node) (w ast.Visitor) {
 			v.hasSideEffect = true
 			return nil
 		}
+	case *ast.IndexExpr:
+		// Indexing an array, slice or string may panic. Map lookups and
+		// instantiations of generic functions and types never do.
+		if tv, ok := v.info.Types[n]; ok && tv.IsType() {
+			break
+		}
+		switch v.info.TypeOf(n.X).Underlying().(type) {
+		case *types.Map, *types.Signature:
+		default:
+			v.hasSideEffect = true
+			return nil
+		}
+	case *ast.SliceExpr:
+		// Slicing may panic when the bounds are out of range.
+		v.hasSideEffect = true
+		return nil
+	case *ast.StarExpr:
+		// Dereferencing a nil pointer panics; a pointer type is not a dereference.
+		if tv, ok := v.info.Types[n]; !ok || !tv.IsType() {
+			v.hasSideEffect = true
+			return nil
+		}
+	case *ast.SelectorExpr:
+		// Selecting a field through a nil pointer panics.
+		if sel := v.info.Selections[n]; sel != nil && sel.Kind() == types.FieldVal && sel.Indirect() {
+			v.hasSideEffect = true
+			return nil
+		}
+	case *ast.TypeAssertExpr:
+		// A failed single-value type assertion panics.
+		if n.Type != nil {
+			v.hasSideEffect = true
+			return nil
+		}
+	case *ast.BinaryExpr:
+		// Integer division by zero panics; constant expressions were checked
+		// by the type checker.
+		if n.Op == token.QUO || n.Op == token.REM {
+			if tv, ok := v.info.Types[n]; ok && tv.Value == nil {
+				if b, ok := tv.Type.Underlying().(*types.Basic); ok && b.Info()&types.IsInteger != 0 {
+					v.hasSideEffect = true
+					return nil
+				}
+			}
+		}
 	}
 	return v
 }
